@@ -34,7 +34,20 @@ RULE = ("block sig: complete product receiver/request kind(8) x requirement(unse
         "altered(2).  block wire: binding(8 incl. unknown, None) x transport encoding(5) x kind mismatch; block schema: the "
         "five schema/instance validity shapes x signed/unsigned.  non-trivial = distinct (receiver, kind, binding, "
         "requirement, enveloped class, detached class, destination class, version, offset class, schema shape, verdict)")
-TRUSTED = ["xmlsec1 stand-in (harness/standin/xmlsec1.py) for enveloped signatures; RSA PKCS#1 v1.5 via `cryptography` for "
+def regenerate_tables(ctx):
+    """Translator: Request._verify as it reads NOW -> coq/gen/C07Src.v; C07/Source.v proves it equal to the model's
+    version / Destination tests (the result of issue_instant_ok() is a parameter)."""
+    import os
+    from harness import common, py2coq
+    return py2coq.regenerate(os.path.join(common.GEN, "C07Src.v"), [
+        (os.path.join(env.SRC, "saml2", "request.py"), "Request._verify",
+         {"name": "src_request_verify", "params": ["self"], "extra_params": [("issue_instant_ok", "pyval")],
+          "calls": {"self.issue_instant_ok": lambda a: "issue_instant_ok"}})])
+
+
+TRUSTED = ["source-to-Gallina translator harness/py2coq.py + coq/theories/Base/Py.v (Request._verify is re-translated from the source "
+           "text on every run; c07_source_request_verify proves it equal to the model)",
+           "xmlsec1 stand-in (harness/standin/xmlsec1.py) for enveloped signatures; RSA PKCS#1 v1.5 via `cryptography` for "
            "detached ones", "renderer harness/render.py, metadata templates harness/world.py",
            "abstraction in harness/c07.py: fixture key pair / certificate <-> number, concrete text <-> (version, destination, "
            "issue instant, issuer, schema flags), exception class <-> verdict"]
